@@ -414,3 +414,59 @@ Proof.
   destruct (pos_deleted js nmask kt Hnd Hln Hkt Hmt) as [-> ->].
   rewrite !renum_rank by (auto; lia). reflexivity.
 Qed.
+
+(* ------------------------------------------------------------------ _restart_connectivity_check *)
+Lemma bl_eqb_refl l : bl_eqb l l = true.
+Proof. unfold bl_eqb. induction l as [|[] l IH]; simpl; auto. Qed.
+
+Lemma bl_eqb_eq a : forall b, bl_eqb a b = true -> a = b.
+Proof.
+  unfold bl_eqb. induction a as [|x a IH]; intros [|y b] H; simpl in H; try discriminate; auto.
+  apply andb_true_iff in H. destruct H as [H1 H2]. apply eqb_prop in H1. subst. f_equal. auto.
+Qed.
+
+Lemma select_scatter {V} (m : list bool) : forall (act full : list V),
+  length full = length m -> length act = count_true m -> select m (scatter m act full) = act.
+Proof.
+  induction m as [|b m IH]; intros act full Hf Ha.
+  - destruct act; [reflexivity|]. unfold count_true in Ha. simpl in Ha. discriminate.
+  - destruct full as [|f full]; [discriminate|]. simpl in Hf. rewrite count_true_cons in Ha.
+    destruct b.
+    + destruct act as [|a act]; [simpl in Ha; lia|]. simpl. f_equal. apply IH; simpl in *; lia.
+    + simpl. apply IH; simpl in *; lia.
+Qed.
+
+Theorem restart_false_iff ident s :
+  fst (restart_check ident s) = false <->
+  select (r_mn s) (r_pn s) = r_an s /\ select (r_mb s) (r_pb s) = r_ab s.
+Proof.
+  unfold restart_check.
+  destruct (bl_eqb (select (r_mn s) (r_pn s)) (r_an s)) eqn:E1, (bl_eqb (select (r_mb s) (r_pb s)) (r_ab s)) eqn:E2;
+    simpl; split; intros H; try discriminate; auto using bl_eqb_eq.
+  - destruct H as [H1 H2]. rewrite H2, bl_eqb_refl in E2. discriminate.
+  - destruct H as [H1 H2]. rewrite H1, bl_eqb_refl in E1. discriminate.
+  - destruct H as [H1 H2]. rewrite H1, bl_eqb_refl in E1. discriminate.
+Qed.
+
+Theorem restart_check_idempotent ident s :
+  restart_check ident (snd (restart_check ident s)) = (false, snd (restart_check ident s)).
+Proof.
+  destruct (bl_eqb (select (r_mn s) (r_pn s)) (r_an s) && bl_eqb (select (r_mb s) (r_pb s)) (r_ab s)) eqn:E.
+  - assert (R : restart_check ident s = (false, s)) by (unfold restart_check; now rewrite E).
+    rewrite R. simpl. exact R.
+  - assert (R : snd (restart_check ident s) =
+                {| r_pn := scatter (r_mn s) (r_an s) (r_pn s); r_pb := scatter (r_mb s) (r_ab s) (r_pb s);
+                   r_mn := fst (ident (scatter (r_mn s) (r_an s) (r_pn s)) (scatter (r_mb s) (r_ab s) (r_pb s)));
+                   r_mb := snd (ident (scatter (r_mn s) (r_an s) (r_pn s)) (scatter (r_mb s) (r_ab s) (r_pb s)));
+                   r_an := select (fst (ident (scatter (r_mn s) (r_an s) (r_pn s)) (scatter (r_mb s) (r_ab s) (r_pb s))))
+                                  (scatter (r_mn s) (r_an s) (r_pn s));
+                   r_ab := select (snd (ident (scatter (r_mn s) (r_an s) (r_pn s)) (scatter (r_mb s) (r_ab s) (r_pb s))))
+                                  (scatter (r_mb s) (r_ab s) (r_pb s)) |})
+      by (unfold restart_check; now rewrite E).
+    rewrite R. unfold restart_check. simpl. now rewrite !bl_eqb_refl.
+Qed.
+
+Theorem restart_keeps_component_change (s : rstate) :
+  length (r_pn s) = length (r_mn s) -> length (r_an s) = count_true (r_mn s) ->
+  select (r_mn s) (scatter (r_mn s) (r_an s) (r_pn s)) = r_an s.
+Proof. intros. now apply select_scatter. Qed.
